@@ -6,6 +6,7 @@ import (
 	"net/http"
 	"strings"
 	"sync"
+	"time"
 )
 
 // IPHashStrategy implements an IP hash load balancing strategy.
@@ -30,10 +31,11 @@ func (iph *IPHashStrategy) NextBackend(r *http.Request) *Backend {
 		return nil
 	}
 
-	// Get healthy backends
+	// Get backends outside an unhealthy window
+	now := time.Now()
 	healthyBackends := make([]*Backend, 0)
 	for _, b := range iph.backends {
-		if b.IsHealthy {
+		if b.eligible(now) {
 			healthyBackends = append(healthyBackends, b)
 		}
 	}
